@@ -107,6 +107,9 @@ func driveWire(c *ctx) {
 		)
 		pn := catch(func() {
 			r, s, err := secec.ParseASN1Signature(append([]byte{}, b...))
+			if err != nil { // a rejected input is offered again at once: same answer
+				r, s, err = secec.ParseASN1Signature(append([]byte{}, b...))
+			}
 			if err == nil {
 				ok = true
 				rh, sh = scHex(r), scHex(s)
@@ -157,6 +160,10 @@ func driveWire(c *ctx) {
 		pn := catch(func() {
 			in := append([]byte{}, b...)
 			k, err := secec.ParseASN1PublicKey(in)
+			if err != nil { // offered again at once
+				in = append([]byte{}, b...)
+				k, err = secec.ParseASN1PublicKey(in)
+			}
 			if err == nil {
 				ok, unc, reb = true, hx(k.Bytes()), hx(k.ASN1Bytes())
 				// the caller reuses its input buffer (and scribbles over what it was handed): the key object must not move
